@@ -489,3 +489,29 @@ pub fn managed_pairs<F: PathFetcher>(manager: &MultiPathManager<F>) -> usize {
 pub fn collect_removed<F: PathFetcher>(manager: &MultiPathManager<F>) -> usize {
     manager.0.managed_paths.verif_collect()
 }
+
+/// A wait on the pair's handle that does not keep the manager alive.
+///
+/// Obtains the handle of the (src, dst) pair the way [`MultiPathManager::path`] does (starting the
+/// worker if the pair is not managed yet) and returns the wait on it as a future that owns nothing
+/// but the handle, so that the last manager reference can be dropped while the wait is pending.
+/// Resolves to the active path, or to the handle's error text if there is none.
+pub fn handle_wait<F: PathFetcher>(
+    manager: &MultiPathManager<F>,
+    src: IsdAsn,
+    dst: IsdAsn,
+) -> impl std::future::Future<Output = Result<ScionPath, String>> + Send + 'static {
+    let handle = manager.ensure_managed_paths(src, dst);
+    async move {
+        let active = handle.active_path().await.as_ref().map(|p| p.0.clone());
+        match active {
+            Some(path) => Ok(path),
+            None => {
+                Err(handle
+                    .current_error()
+                    .map(|e| e.to_string())
+                    .unwrap_or_else(|| "no error recorded".into()))
+            }
+        }
+    }
+}
